@@ -93,6 +93,26 @@ pub(crate) fn for_time(
 /// Validates the given rounding increment for the given unit.
 ///
 /// This validation ensures the rounding increment is valid for rounding
+/// signed durations (and, through them, offsets).
+pub(crate) fn for_signed_duration(
+    unit: Unit,
+    increment: i64,
+) -> Result<t::NoUnits128, Error> {
+    // Indexed by `Unit`.
+    static LIMIT: &[Constant] = &[
+        t::NANOS_PER_MICRO,
+        t::MICROS_PER_MILLI,
+        t::MILLIS_PER_SECOND,
+        t::SECONDS_PER_MINUTE,
+        t::MINUTES_PER_HOUR,
+        t::HOURS_PER_CIVIL_DAY,
+    ];
+    get_with_limit(unit, increment, "signed duration", LIMIT)
+}
+
+/// Validates the given rounding increment for the given unit.
+///
+/// This validation ensures the rounding increment is valid for rounding
 /// timestamps.
 pub(crate) fn for_timestamp(
     unit: Unit,
